@@ -155,13 +155,24 @@ class C04(Prop):
         return other
 
     def _float_sensitive(self, s) -> bool:
-        cap = s.max_atp + s.max_gtp
+        cap = self._pub(s, "max_atp") + self._pub(s, "max_gtp")
         facts = self._cls_facts()
         if cap <= 0 or facts is None:
             return False
         w, chain, _ = facts
-        r = Fraction(s.atp + s.gtp, cap) - Fraction(max(s.get_debt(), 0), cap) * w
+        r = Fraction(self._pub(s, "atp") + self._pub(s, "gtp"), cap) - Fraction(max(s.get_debt(), 0), cap) * w
         return any(abs(r - t) < Fraction(1, 10 ** 9) for _, t, _ in chain)
+
+    def _pub(self, s, name):
+        """read one quantity of a store through the public API: get_statistics()/get_balance()/get_debt() first, the
+        public attribute of the same name only if no getter reports it (max_debt)"""
+        try:
+            st = s.get_statistics()
+            if name in st:
+                return st[name]
+        except Exception:  # noqa
+            pass
+        return getattr(s, name)
 
     # --- generation ---------------------------------------------------------------------------------------
     def _new_line(self, rng, big=False):
@@ -208,10 +219,10 @@ class C04(Prop):
 
     def _amount(self, rng, s, cur):
         b = s.get_balance(self.cur[cur])
-        cands = [0, 1, 2, 3, 5, 8, 13, b, b + 1, max(b - 1, 0), b + s.nadh, b + s.nadh + 1,
-                 b + max(s.max_debt - s.get_debt(), 0), b + max(s.max_debt - s.get_debt(), 0) + 1,
-                 b + s.nadh + max(s.max_debt - s.get_debt(), 0), b + s.nadh + max(s.max_debt - s.get_debt(), 0) + 1,
-                 s.max_atp + 1]
+        cands = [0, 1, 2, 3, 5, 8, 13, b, b + 1, max(b - 1, 0), b + self._pub(s, "nadh"), b + self._pub(s, "nadh") + 1,
+                 b + max(self._pub(s, "max_debt") - s.get_debt(), 0), b + max(self._pub(s, "max_debt") - s.get_debt(), 0) + 1,
+                 b + self._pub(s, "nadh") + max(self._pub(s, "max_debt") - s.get_debt(), 0), b + self._pub(s, "nadh") + max(self._pub(s, "max_debt") - s.get_debt(), 0) + 1,
+                 self._pub(s, "max_atp") + 1]
         return max(0, rng.choice(cands))
 
     def generate(self, rng, tier, n):
@@ -263,7 +274,7 @@ class C04(Prop):
                         k += reps - 1
                 elif op == "regen":
                     cur = rng.choice(CURS)
-                    room = max(0, {"atp": s.max_atp, "gtp": s.max_gtp, "nadh": s.max_nadh}[cur] - s.get_balance(self.cur[cur]))
+                    room = max(0, {"atp": self._pub(s, "max_atp"), "gtp": self._pub(s, "max_gtp"), "nadh": self._pub(s, "max_nadh")}[cur] - s.get_balance(self.cur[cur]))
                     line = f"regen {i} {rng.choice([0, 1, 2, 5, 100, room, room + 1, s.get_debt(), s.get_debt() + 1])} {cur}"
                 elif op == "transfer":
                     j = rng.randrange(len(stores))
@@ -271,7 +282,7 @@ class C04(Prop):
                     b = s.get_balance(self.cur[cur])
                     line = f"transfer {i} {j} {rng.choice([0, 1, 2, 5, b, b + 1, max(b - 1, 0), 50])} {cur}"
                 elif op == "convert":
-                    line = f"convert {i} {rng.choice([0, 1, 2, 5, 100, s.nadh, s.nadh + 1])}"
+                    line = f"convert {i} {rng.choice([0, 1, 2, 5, 100, self._pub(s, "nadh"), self._pub(s, "nadh") + 1])}"
                 elif op == "new" or (op == "dorm" and rng.random() < 0.03 and len(stores) < 4):
                     line = self._new_line(rng)
                 elif with_obs and op == "wake" and rng.random() < 0.3:
